@@ -1,11 +1,14 @@
 #!/bin/bash
 # Rebuild the harness binaries against /repo's current working tree (hooks on: -tags verif + overlay).
+# VERIF_BUILD_TAG (default "main") separates overlay files and binaries of concurrent builds.
 set -e
 cd /verif
 . scripts/env.sh
 cp /repo/go.sum go.sum
 python3 scripts/overlaygen.py >/dev/null
+tag="${VERIF_BUILD_TAG:-main}"
+suffix=""; [ "$tag" != "main" ] && suffix="-$tag"
 which="${1:-base}"
 case "$which" in
- base) go build -tags verif -overlay .build/overlay-base.json -o .build/bin/verif ./cmd/verif ;;
+ base) go build -tags verif -overlay .build/overlay-$tag-base.json -o .build/bin/verif$suffix ./cmd/verif ;;
 esac
